@@ -289,8 +289,14 @@ func (c *Component) sendPAPNak(s *Session, id uint8) {
 // allocation. Called with s.mu held.
 func (c *Component) extractIPFromAttributes(s *Session) {
 	if ip, ok := s.Attributes[aaa.AttrIPv4Address]; ok {
-		if parsed := net.ParseIP(ip); parsed != nil {
+		// Only a usable IPv4 address counts as an assignment: 0.0.0.0 or an
+		// IPv6 literal would leave IPCP without an assigned peer address and
+		// the subscriber could then negotiate any address it proposes.
+		if parsed := net.ParseIP(ip); parsed != nil && isUsableSubscriberIPv4(parsed) {
 			s.IPv4Address = parsed
+		} else {
+			c.log.Warn("L2TP ignoring unusable IPv4 address from AAA",
+				"session_id", s.SessionID, "ip", ip)
 		}
 	}
 	if v6addr, ok := s.Attributes[aaa.AttrIPv6Address]; ok {
@@ -383,8 +389,17 @@ func (c *Component) startNCP(s *Session) {
 		c.allocatePD(s)
 	}
 
-	if s.IPv4Address != nil {
+	// Only negotiate IPCP when the session really owns an IPv4 address
+	// (from AAA or allocated from a pool). Without one IPCP would run in
+	// its "nothing to assign" mode and acknowledge whatever address the
+	// subscriber proposes; IPv4 then simply stays down (IPv6CP may still
+	// open the session).
+	haveIPv4 := isUsableSubscriberIPv4(s.IPv4Address)
+	if haveIPv4 {
 		s.IPCP.SetPeerAddress(s.IPv4Address)
+	} else {
+		s.IPv4Address = nil
+		c.log.Warn("L2TP no IPv4 address available, IPCP not started", "session_id", s.SessionID)
 	}
 
 	c.applyIPv4ProfileToIPCP(s)
@@ -398,8 +413,10 @@ func (c *Component) startNCP(s *Session) {
 		s.IPCP.SetDNS(dns1IP, dns2IP)
 	}
 
-	s.IPCP.FSM().Up()
-	s.IPCP.FSM().Open()
+	if haveIPv4 {
+		s.IPCP.FSM().Up()
+		s.IPCP.FSM().Open()
+	}
 	s.IPv6CP.FSM().Up()
 	s.IPv6CP.FSM().Open()
 }
@@ -439,6 +456,11 @@ func (c *Component) applyIPv4ProfileToIPCP(s *Session) {
 	if dns1 != nil || dns2 != nil {
 		s.IPCP.SetDNS(dns1, dns2)
 	}
+}
+
+func isUsableSubscriberIPv4(ip net.IP) bool {
+	v4 := ip.To4()
+	return v4 != nil && !v4.IsUnspecified()
 }
 
 func (c *Component) allocateIPv4(s *Session) {
@@ -495,7 +517,13 @@ func (c *Component) allocatePD(s *Session) {
 // with s.mu held.
 func (c *Component) onIPCPUp(s *Session) {
 	c.log.Debug("L2TP IPCP up", "session_id", s.SessionID, "peer_addr", s.IPCP.PeerConfig().Address)
-	s.IPv4Address = s.IPCP.PeerConfig().Address
+	// A Configure-Request without an IP-Address option is acknowledged too;
+	// the peer address is then nil and the address assigned in startNCP
+	// must stay in place (it is what the dataplane is programmed with and
+	// what is released to the pool on teardown).
+	if addr := s.IPCP.PeerConfig().Address; addr != nil {
+		s.IPv4Address = addr
+	}
 	s.ipcpOpen = true
 	c.checkSessionOpen(s)
 }
